@@ -127,6 +127,21 @@ Checks that were strengthened because a seeded change (or the triage of one) sho
   **C11-8** (host mismatch skipped when both sides carry the same explicit port) - same-port pairs in the trigger matrix;
   **C13-8** (CONNECT to a bracketed IPv6 host keeps the ':' in the port text) - `en_c13` drives CONNECT targets end to end; **C16-8**
   (a CONNECT that announces a body, even `Content-Length: 0`, is never suspended or tunnelled) - CONNECT requests with extra headers, IPv6/IPv4 targets.
+* **Round 9** (19 more; 9 not caught at first): **C05-9** (the early hand-over at the end of a response armed for an ordinary
+  upload answered early, TRANSACTION_COMPLETE twice) went unreported because the symptom carried the trace site of known finding
+  KF-C05-early-data-other - the attribution was too wide: the armed exit (sub-site 2) now explains a symptom only on a CONNECT
+  transaction, the one place where the unchanged library arms it (section 2.6); **C06-9** (Expect/4xx shortcut taken in
+  mid-body) - a C06 slice of final responses that arrive while the upload they answer is still in flight, with and without
+  `Expect`; **C08-9** (every destroyed transaction sweeps the connection's whole message list) - 12 exchange families: k complete
+  keep-alive exchanges that each log a warning, under the three ways a finished transaction is disposed of (all C08 families had
+  run with logging off); **C04-9** (a 101 exchange at the end of the connection never finished by `htp_connp_close`) - a C04
+  slice whose last exchange is an accepted upgrade; **C02-9** (credential parsing switched by the cookie switch) - C02 varies
+  the two switches independently; **C11-9** (upper-case scheme not recognised, authority never parsed) - scheme spellings in
+  absolute-form targets; **C12-9** (first decoder stage reads the connection's configuration) - half of `en_c12`'s 768
+  configurations are installed with `htp_tx_set_config` on a connection configured the opposite way in every switch; **C15-9**
+  (pairs of a chunked body tagged as query-string parameters) - every third end-to-end run of `en_c15` uses the chunked coding;
+  **C16-9** (tunnel payload starting with NUL or LF never switches to tunnel mode) - payloads of length-prefixed and banner
+  protocols besides TLS.
 * **C08-1/2, C19-1/2** were the acceptance tests of the two checks built last; C19-1 (a process-wide decompression buffer) is
   invisible to ThreadSanitizer because zlib does the writes, and is caught by the solo-vs-shared dump comparison under baton
   interleavings; C19-2 (self-organising best-fit map) is caught by the deep configuration hash and by TSan.
